@@ -10,15 +10,23 @@ from .findings import load_findings, match_finding
 def replay_file(prop: str, path: str) -> int:
     data = json.loads(open(path).read())
     rec = data["record"]
-    kind = data.get("kind", "core")
-    if kind != "core":
+    if prop in ("C06", "C08", "C09", "C10", "C15", "C16", "C17") or (prop == "C07" and "st" in (rec or {})):
         from . import checks_query
+        data["path"] = path
         return checks_query.replay(prop, data)
+    if prop not in ("C01", "C02", "C03", "C04", "C07", "C13") or "pre" not in (rec or {}) or rec.get("op", {}).get("name") == "fault" \
+            or rec.get("fl") == "suite":
+        # serial / diff / lock / fs / generator cases and fault injections are re-run through the property's whole
+        # quick check (the recorded case is part of what it enumerates)
+        from . import check as C
+        print(f"replaying {path} through the quick check of {prop}")
+        return C.main(["check", prop, "quick"])
     flname = rec["fl"]
     fl = flavours.make(flname.split("+")[0], flname.endswith("+typed"))
     mk = len(rec["pre"]["meta"][0]) if rec["pre"]["meta"] else 1
     b = core.build(rec["pre"], fl, mk)
-    src = core.build(P.src_state(fl, mk), fl, mk, name="src")
+    src_xid = 11 if "src" in rec and 11 in rec["src"].get("did", []) else 0
+    src = core.build(P.src_state(fl, mk, src_xid), fl, mk, name="src")
     new = trace.run_step(b, rec["op"], 1, src, 4, pre_st=rec["pre"])
     mism, checked, _ = P.validate_records([new], defdid=fl.defdid, mk=mk)
     mism = [m for m in mism if m["property"] == prop]
